@@ -1,7 +1,8 @@
 \* C10 leg A (block-set dynamics) thorough: 4 blocks (two halves, their compaction, another stream), 5 selector sets,
-\* upload / delete / compact / sync / query / evict, <= 7 steps
+\* upload / delete / compact / sync / query / evict, <= 6 steps
 SPECIFICATION Spec
-CONSTANTS MaxSteps = 7
+CONSTANTS MaxSteps = 6
 INVARIANT C10_AnswerIsSelectionOverLoadedBlocks
 INVARIANT LoadedFollowsBucketAtSync
+VIEW View
 CHECK_DEADLOCK FALSE
